@@ -13,13 +13,14 @@ ap.add_argument("--tier", default="quick")
 ap.add_argument("--runs", default="0")
 ap.add_argument("--seed", default="0")
 ap.add_argument("--expect", type=int, default=1)
+ap.add_argument("--base", default="HEAD", help="commit of /repo the patch applies to (default: HEAD + uncommitted edits)")
 a = ap.parse_args()
 scratch = tempfile.mkdtemp(prefix="vsim_mut_", dir="/tmp")
 wt = os.path.join(scratch, "repo")
 try:
-    subprocess.run(["git", "-C", "/repo", "worktree", "add", "-q", "--detach", wt, "HEAD"], check=True)
+    subprocess.run(["git", "-C", "/repo", "worktree", "add", "-q", "--detach", wt, a.base], check=True)
     # carry uncommitted edits of /repo's working tree as well (checks must reflect the current tree)
-    diff = subprocess.run(["git", "-C", "/repo", "diff", "HEAD"], capture_output=True, text=True).stdout
+    diff = subprocess.run(["git", "-C", "/repo", "diff", "HEAD"], capture_output=True, text=True).stdout if a.base == "HEAD" else ""
     if diff.strip():
         subprocess.run(["git", "-C", wt, "apply"], input=diff, text=True, check=True)
     r = subprocess.run(["git", "-C", wt, "apply", "--whitespace=nowarn", os.path.abspath(a.patch)])
